@@ -133,6 +133,26 @@ Definition bootstrap_ok (ver : Z) (c : mcfg) (r : mround) (rf : fields234) : boo
                if m <? 0 then rf_valid_from rf =? rf_ts rf else (rf_valid_from rf =? m + 1) && (m + 1 <=? max_uint32)
   end.
 
+(* C09, "declines - without error - when the new end would precede that start": a previous report ending at pts, a consensus
+   timestamp below pts + 1, and nothing else wrong with the round (enough parsable observations, prices / market status agreed,
+   no 32-bit overflow of the start or the expiry): the plugin must answer (false, nil), so an error here violates the property.
+   Evaluated on the implementation's answer, independently of the model of Report (seed C09-F). *)
+Definition must_decline (ver : Z) (c : mcfg) (r : mround) : bool :=
+  match rd_prev r with
+  | Some (Ok pts) =>
+      let f := mc_f c in
+      let paos := omap' (parse234 ver) (omap' fst (rd_obs r)) in
+      (f + 1 <=? length paos)%nat &&
+      match consensus_timestamp (map p_ts paos) with
+      | Ok ts => (ts <? pts + 1) && (pts <? max_uint32) && negb (max_uint32 <? ts + mc_window c) &&
+                 is_ok (consensus_price (map p_bm paos) f) &&
+                 (if ver =? 3 then is_ok (consensus_price (map p_bid paos) f) && is_ok (consensus_price (map p_ask paos) f) else true) &&
+                 (if ver =? 4 then is_ok (market_status (map p_status paos) f) else true)
+      | _ => false
+      end
+  | _ => false
+  end.
+
 (* ---- C09 over a threaded history: (end of the last emitted report) ---- *)
 Fixpoint c09_chain (ver : Z) (c : mcfg) (last : option Z) (rs : list mround) : bool :=
   match rs with
@@ -152,7 +172,7 @@ Fixpoint c09_chain (ver : Z) (c : mcfg) (last : option Z) (rs : list mround) : b
       | Ok (false, _) =>
           (* declining must be error-free and only because the new end precedes the start (checked via the model) *)
           c09_chain ver c last rest
-      | _ => c09_chain ver c last rest
+      | _ => negb (must_decline ver c r) && c09_chain ver c last rest
       end
   end.
 (* v1, no previous report: the start is one past a max-finalized block number that at least f+1 observers reported AS VALID
